@@ -84,7 +84,7 @@ def run(ctx):
            "add_alts is reachable from %s; only the guarded entry add_sibling_alts_for_unknown_field may call it" % callers)
     f = ctx.fn("darling_core::error::Error::add_sibling_alts_for_unknown_field")
     if f:
-        rec = [c.key for c in ctx.closures_of(f) if ctx.find_calls(c, r"^darling_core::error::Error::add_sibling_alts_for_unknown_field$")]
+        rec = [h["owner"].key for h in ctx.per_element(f, r"^darling_core::error::Error::add_sibling_alts_for_unknown_field$") if h["form"] in ("adapter", "loop")]
         ctx.ob("C17.G.children-recurse-through-guard", f.key, "children of a bundle go through the guarded entry", len(rec) == 1,
                "each child of a Multiple bundle must be re-checked by add_sibling_alts_for_unknown_field itself (its own locations.is_empty() guard); closures recursing: %s" % rec)
     # type fact: only UnknownField carries a suggestion
